@@ -57,6 +57,7 @@ type TypeInfo struct {
 	IsOrName   string   `json:"isOrName"`   // literal compared in IsOrExtends
 	IsOrDeleg  string   `json:"isOrDeleg"`  // function delegated to
 	IsExtDeleg string   `json:"isExtDeleg"` // function IsExtending delegates to
+	VocabURI   string   `json:"vocabURI"`   // literal returned by VocabularyURI()
 	CtxFields  []string `json:"ctxFields"`  // fields visited by JSONLDContext
 	CtxVocab   string   `json:"ctxVocab"`
 	Getters    []string `json:"getters"` // Get<Vocab><Prop> method names
@@ -93,6 +94,7 @@ type Out struct {
 	ToTypeCbs  []string                `json:"toTypeCbs"`
 	Unmatched  []string                `json:"unmatched"` // errors IsUnmatchedErr accepts
 	PkgPreds   map[string]string       `json:"pkgPreds"`  // streams.<Fn> -> delegated "pkg.Fn"
+	JsonAlias  map[string][]string     `json:"jsonAlias"` // alias variable of the JSON resolver -> [first uri, fallback uri]
 	MgrMethods map[string]string       `json:"mgrMethods"`
 	Errors     []string                `json:"errors"`
 	Files      int                     `json:"files"`
@@ -321,12 +323,23 @@ func doType(dir string) {
 		errf("%s: no GetTypeName literal", files[0])
 		return
 	}
+	if fd := fs[ti.Struct+".VocabularyURI"]; fd != nil && len(fd.Body.List) == 1 {
+		if r, ok := fd.Body.List[0].(*ast.ReturnStmt); ok && len(r.Results) == 1 {
+			ti.VocabURI, _ = strLit(r.Results[0])
+		}
+	}
+	if ti.VocabURI == "" {
+		errf("%s: no VocabularyURI literal", files[0])
+	}
 	des := fs["Deserialize"+ti.Name]
 	if des == nil {
 		errf("%s: no Deserialize%s", files[0], ti.Name)
 		return
 	}
 	ti.Vocab = vocabFromAlias(des)
+	if ti.VocabURI != "" && ti.Vocab != ti.VocabURI {
+		errf("%s: VocabularyURI() %q differs from the deserializer's vocabulary %q", files[0], ti.VocabURI, ti.Vocab)
+	}
 	// typeless: does the deserializer look at m["type"]?
 	hasTypeCheck := false
 	ast.Inspect(des, func(n ast.Node) bool {
@@ -772,6 +785,17 @@ func doResolvers(root string) {
 		re := regexp.MustCompile(`typeString == (\w+)Alias\+"(\w+)" \{\s*v, err := mgr\.(\w+)\(\)\(m, aliasMap\)\s*if err != nil \{\s*return err\s*\}\s*for _, i := range this\.callbacks \{\s*if fn, ok := i\.\(func\(context\.Context, (vocab\.\w+)\) error\); ok \{\s*return fn\(ctx, v\)\s*\}\s*\}\s*return ErrNoCallbackMatch\s*\}`)
 		for _, m := range re.FindAllStringSubmatch(body, -1) {
 			out.Resolvers["json"] = append(out.Resolvers["json"], ChainEntry{Vocab: m[1], Name: m[2], Deser: m[3], Cb: m[4]})
+		}
+		out.JsonAlias = map[string][]string{}
+		reA := regexp.MustCompile(`(\w+)Alias, ok := aliasMap\["([^"]+)"\]\s*if !ok \{\s*(\w+)Alias = aliasMap\["([^"]+)"\]\s*\}\s*if len\((\w+)Alias\) > 0 \{\s*(\w+)Alias \+= ":"\s*\}`)
+		for _, m := range reA.FindAllStringSubmatch(body, -1) {
+			if m[1] != m[3] || m[1] != m[5] || m[1] != m[6] {
+				errf("json resolver: alias block mixes variables %v", m[1:])
+			}
+			out.JsonAlias[m[1]] = []string{m[2], m[4]}
+		}
+		if strings.Count(body, "Alias, ok := aliasMap[") != len(out.JsonAlias) {
+			errf("json resolver: alias blocks not all recognised")
 		}
 		if n := strings.Count(body, "typeString == "); n != len(out.Resolvers["json"]) {
 			errf("json resolver: %d chain tests but %d recognised", n, len(out.Resolvers["json"]))
